@@ -302,10 +302,11 @@ Fut(k) == [k EXCEPT !.out = <<>>, !.L.hk = FutCapAges(@), !.L.hi = FutCapAges(@)
 \* is "K ticks are unobservable" for every K
 IdleTickIsStutter(k) ==
   CanBlockUpdate(k).cb => LET s == StepTick(k) IN s.K.out = <<>> /\ Fut(s.K) = Fut(k)
-\* the may-block states covered by a recorded, unrepaired finding of C07 (known_findings.json) that L1 models: none
-\* any more (the rapid-event pause, the one-shot end with timeout 0 and the recording state were repaired in
-\* 743d8bc / 594c697 / db302df and are conjuncts of IsIdle now; the zippychord reset is outside L1)
-IdleTickKnownDefect(k) == FALSE
+\* the may-block states covered by a recorded, unrepaired finding of C07 (known_findings.json) that L1 models:
+\* is_idle looks at layout.waiting but not at layout.extra_waiting (concurrent-tap-hold: a second tap-hold still deciding
+\* after the first one resolved).  (The rapid-event pause, the one-shot end with timeout 0 and the recording state were
+\* repaired in 743d8bc / 594c697 / db302df and are conjuncts of IsIdle now; the zippychord reset is outside L1.)
+IdleTickKnownDefect(k) == k.L.extra # <<>>
 \* ----- projection on what the harness can observe without hooks (binding B) ---------------
 ProjSt(s) ==
   CASE s.t = "nk" -> <<"nk", s.a, s.x, s.y, s.f>>
